@@ -710,6 +710,10 @@ fn c17_unit_maps() -> Vec<Vec<(u8, AppSpec)>> {
         vec![(1, apps[0].clone()), (2, apps[2].clone())],
         // the unit in the middle fails every write
         vec![(1, apps[1].clone()), (2, apps[2].clone()), (247, apps[0].clone())],
+        // handlers registered under the ends of the id range: 0 is an ordinary unit on TCP and one
+        // of "all configured units" for an RTU broadcast; 255 is ordinary everywhere
+        vec![(0, apps[0].clone()), (7, apps[2].clone())],
+        vec![(255, apps[0].clone())],
     ]
 }
 
@@ -781,10 +785,10 @@ pub fn check_c17(tier: &str) -> i32 {
         "C17",
         tier,
         "model_checking",
-        "for every handler map of 0..3 units, every destination 0..=255 and each of the eight request kinds in three flavours (valid, failing in the handler, malformed) plus unknown function codes, on RTU and TCP framing, the bytes written and the handler log are compared with the reference server (silence unless unicast to a configured unit; RTU broadcast writes reach every unit exactly once and are never answered; broadcast reads ignored); then all sequences of <= D events over a 12-symbol alphabet mixing broadcast, unicast and sentinel reads; finally a broadcast write racing an application thread that holds one unit's handler lock, all schedules at the handler-mutex acquisitions",
+        "for every handler map of 0..3 units (including maps with a handler registered under unit 0 and under unit 255), every destination 0..=255 and each of the eight request kinds in three flavours (valid, failing in the handler, malformed) plus unknown function codes, on RTU and TCP framing, the bytes written and the handler log are compared with the reference server (silence unless unicast to a configured unit; RTU broadcast writes reach every unit exactly once and are never answered; broadcast reads ignored); then all sequences of <= D events over a 12-symbol alphabet mixing broadcast, unicast and sentinel reads; finally a broadcast write racing an application thread that holds one unit's handler lock, all schedules at the handler-mutex acquisitions",
     );
     let depth = if rep.thorough() { 6 } else { 4 };
-    rep.bounds = json!({"sequence_depth": depth, "destinations": 256, "unit_maps": 4, "kinds": 24});
+    rep.bounds = json!({"sequence_depth": depth, "destinations": 256, "unit_maps": 6, "kinds": 24});
     let mut kinds = c17_kinds();
     kinds.push(("unknown-fc", vec![0x2B, 1, 2]));
     kinds.push(("unknown-fc-high", vec![0x81, 1]));
